@@ -47,6 +47,8 @@ type Fact struct {
 	A   []int64 `json:"a"`
 	AS  []string `json:"as"`
 	AF  []float32 `json:"af"`
+	L   []*Sub            `json:"l"`  // slice of struct pointers: F.L[1].X
+	MP  map[string]*Sub   `json:"mp"` // map of struct pointers: F.MP["k1"].Y
 	M   map[string]int64  `json:"m"`
 	MS  map[string]string `json:"ms"`
 
